@@ -507,6 +507,45 @@ fn flow_last_step(p: &Value) -> Value {
     }
 }
 
+/// translator validation (C06/C09): per-draw observables of a real DiagNutsSettings chain for a given warm-up schedule
+fn schedule(p: &Value) -> Value {
+    let n = p["num_tune"].as_u64().unwrap_or(40);
+    let nd = p["num_draws"].as_u64().unwrap_or(4);
+    let r = quiet(|| {
+        let mut settings = DiagNutsSettings::default();
+        settings.num_tune = n;
+        settings.num_draws = nd;
+        settings.maxdepth = 6;
+        let a = &mut settings.adapt_options;
+        if let Some(x) = p["early_window"].as_f64() { a.early_window = x; }
+        if let Some(x) = p["step_size_window"].as_f64() { a.step_size_window = x; }
+        if let Some(x) = p["switch_freq"].as_u64() { a.mass_matrix_switch_freq = x; }
+        if let Some(x) = p["early_switch_freq"].as_u64() { a.early_mass_matrix_switch_freq = x; }
+        if let Some(x) = p["update_freq"].as_u64() { a.mass_matrix_update_freq = x; }
+        if let Some(x) = p["growth"].as_f64() { a.mass_matrix_window_growth = x; }
+        a.step_size_settings.jitter = None;
+        let dim = p["dim"].as_u64().unwrap_or(4) as usize;
+        let math = CpuMath::new(Normal { dim });
+        let mut rng = rand::rngs::StdRng::seed_from_u64(p["seed"].as_u64().unwrap_or(7));
+        let mut chain = settings.new_chain(0, math, &mut rng);
+        chain.set_position(&vec![0.3f64; dim]).unwrap();
+        let (mut tuning, mut diverging, mut idx, mut upd, mut step) = (vec![], vec![], vec![], vec![], vec![]);
+        for _ in 0..(n + nd) {
+            let (_pos, _e, stats, prog) = chain.expanded_draw().unwrap();
+            tuning.push(prog.tuning);
+            diverging.push(prog.diverging);
+            idx.push(stats.point.index_in_trajectory);
+            upd.push(stats.hamiltonian.transformation.transformation_update_id);
+            step.push(prog.step_size);
+        }
+        (tuning, diverging, idx, upd, step)
+    });
+    match r {
+        Ok((tuning, diverging, idx, upd, step)) => json!({"confirmed": true, "tuning": tuning, "diverging": diverging, "index_in_trajectory": idx, "update_id": upd, "step_size": step}),
+        Err(msg) => json!({"confirmed": false, "panicked": true, "message": msg}),
+    }
+}
+
 fn main() {
     let args: Vec<String> = std::env::args().collect();
     let fam = args.get(1).map(|s| s.as_str()).unwrap_or("");
@@ -518,6 +557,7 @@ fn main() {
         "hashmap_finalize" => hashmap_finalize(&p),
         "chain_failure" => chain_failure(&p),
         "flow_last_step" => flow_last_step(&p),
+        "schedule" => schedule(&p),
         _ => json!({"error": "unknown family"}),
     };
     println!("{}", out);
